@@ -62,10 +62,11 @@ def block(kind, dims, pert=0.0, shift=0, spacing=0):
     for k in range(nz):
         for j in range(ny):
             for i in range(nx):
-                if kind == "hex":
+                if kind == "hex" or (kind == "hextet" and (i + j + k) % 2 == 0):
+                    # "hextet": a mixed mesh - even cells are hexahedra, odd cells are split into six tetrahedra
                     elements.append([nid(i + a, j + b, k + c) for a, b, c in HEX_CORNERS])
                     continue
-                tets = KUHN if kind == "tet6" else FIVE
+                tets = KUHN if kind in ("tet6", "hextet") else FIVE
                 odd = kind == "tet5" and (i + j + k) % 2 == 1
                 for tet in tets:
                     # mirror all three axes in odd cells: keeps the diagonals of shared faces matching
